@@ -9,8 +9,11 @@ Planning code (exact ties via harness/rangeplan.py): `fits_trivially`, the answe
 is involved, and the range `delete_range` hands to `Transform.delete` (lean/PM/RangeOps.lean; observed through a Transform
 subclass in this process); the Fitter itself — the step `replace_step` emits, exactly, on the bundled-family schemas, and the
 step `delete_range` records (lean/PM/Fitter.lean), with the `fill_before` / `find_wrapping` choices it depends on
-(lean/PM/FillOrder.lean).  Props/C11.lean proves `respects` for these models (`fitsTrivially_respects`, `deleteRange_respects`,
-`fit_range`, `fitter_respects`) instead of only monitoring it.
+(lean/PM/FillOrder.lean); `replace_range` / `replace_range_with` as wholes (lean/PM/ReplaceRange.lean): the whole sequence of
+`(from, to, slice)` they hand to `Transform.replace` (observed through a Transform subclass), `close_fragment`, and the pair
+`replace_range_with` passes on — also on two aimed schemas with `definingAsContext` / `definingForContent`.
+Props/C11.lean proves `respects` for these models (`fitsTrivially_respects`, `deleteRange_respects`,
+`fit_range`, `fitter_respects`, `replaceRange_extends_structurally`, `replaceRange_respects`) instead of only monitoring it.
 Search: on the real code: no exception on the bundled-family schemas (totality — decided by search
 only), `check()` + the independent validator, and content preservation computed from to_json().
 """
